@@ -122,8 +122,10 @@ BigTwo == [n \in 1..8 |->
 \* their own anchors, an escaped trailing "$" / leading "^", anchors in the middle, ".*"; subjects that match only as a prefix,
 \* suffix or in the middle.  The truth comes from the Go regexp facts in rx.ndjson under the documented semantics
 \* (match = the pattern wrapped as ^(?:p)$, search / =~ unanchored).  Patterns: a|b  ^a|b$  ^(a|b)$  ^a$|^b$  ^abc|xyz$  cost\$  ^cost\$  \^a  a^b  a$b  .*  a.*  abc  ^abc$ ; subjects: 'a'  'b'  'ab'  'abc'  'abcZZ'  'ZZxyz'  'xyz'  'ZZabcZZ'  'cost$'  'cost$x'  'xcost$'  '^a'  'x^a'  ''  'a^b'  'ZZ'
-RxPats == <<<<97, 124, 98>>, <<94, 97, 124, 98, 36>>, <<94, 40, 97, 124, 98, 41, 36>>, <<94, 97, 36, 124, 94, 98, 36>>, <<94, 97, 98, 99, 124, 120, 121, 122, 36>>, <<99, 111, 115, 116, 92, 36>>, <<94, 99, 111, 115, 116, 92, 36>>, <<92, 94, 97>>, <<97, 94, 98>>, <<97, 36, 98>>, <<46, 42>>, <<97, 46, 42>>, <<97, 98, 99>>, <<94, 97, 98, 99, 36>>>>
-RxSubs == <<<<97>>, <<98>>, <<97, 98>>, <<97, 98, 99>>, <<97, 98, 99, 90, 90>>, <<90, 90, 120, 121, 122>>, <<120, 121, 122>>, <<90, 90, 97, 98, 99, 90, 90>>, <<99, 111, 115, 116, 36>>, <<99, 111, 115, 116, 36, 120>>, <<120, 99, 111, 115, 116, 36>>, <<94, 97>>, <<120, 94, 97>>, <<>>, <<97, 94, 98>>, <<90, 90>>>>
+RxPats == <<<<97, 124, 98>>, <<94, 97, 124, 98, 36>>, <<94, 40, 97, 124, 98, 41, 36>>, <<94, 97, 36, 124, 94, 98, 36>>, <<94, 97, 98, 99, 124, 120, 121, 122, 36>>, <<99, 111, 115, 116, 92, 36>>, <<94, 99, 111, 115, 116, 92, 36>>, <<92, 94, 97>>, <<97, 94, 98>>, <<97, 36, 98>>, <<46, 42>>, <<97, 46, 42>>, <<97, 98, 99>>, <<94, 97, 98, 99, 36>>,
+           \* leftmost-first alternation and non-greedy repeats: the leftmost match is a proper prefix although the whole string matches
+           <<97, 124, 97, 98>>, <<97, 98, 43, 63>>, <<40, 97, 124, 97, 98, 41, 40, 99, 124, 98, 99, 100, 41>>>>
+RxSubs == <<<<97>>, <<98>>, <<97, 98>>, <<97, 98, 99>>, <<97, 98, 99, 90, 90>>, <<90, 90, 120, 121, 122>>, <<120, 121, 122>>, <<90, 90, 97, 98, 99, 90, 90>>, <<99, 111, 115, 116, 36>>, <<99, 111, 115, 116, 36, 120>>, <<120, 99, 111, 115, 116, 36>>, <<94, 97>>, <<120, 94, 97>>, <<>>, <<97, 94, 98>>, <<90, 90>>, <<97, 98, 98>>, <<97, 98, 99, 100>>>>
 RxFns == <<"match", "search", "=~", "rx">>       \* "rx": =~ with a /regex/ constant instead of a string pattern
 RxCases == [n \in 1..(Len(RxFns) * Len(RxPats) * Len(RxSubs)) |->
               LET fn == RxFns[((n - 1) \div (Len(RxPats) * Len(RxSubs))) + 1]
